@@ -603,6 +603,12 @@ class ttensor:
                 "If samples and modes provided lengths must be equal, but "
                 f"samples had length {len(samples)} and modes {len(modes)}"
             )
+        if len(np.unique(modes)) != len(modes) or (
+            len(modes) > 0 and (min(modes) < 0 or max(modes) >= self.ndims)
+        ):
+            raise ValueError(
+                f"modes must be distinct and in [0, {self.ndims}) but got {modes}"
+            )
 
         full_samples = [np.array([], order=self.order)] * self.ndims
         for sample, mode in zip(samples, modes):
